@@ -125,6 +125,13 @@ impl Matcher for SingleExecMatcher {
     }
 }
 
+/// What the kernel charges to the same limit besides argv and envp: the file
+/// name it executes (the command as found through PATH, up to PATH_MAX bytes)
+/// and, for a "#!" script, that name a second time with the interpreter line
+/// (at most 256 bytes). argmax leaves one page and 2048 bytes unused.
+const FILE_NAME_MAX: usize = 2 * 4096 + 256;
+const ARGMAX_SLACK: usize = 4096 + 2048;
+
 pub struct MultiExecMatcher {
     executable: String,
     args: Vec<OsString>,
@@ -134,6 +141,8 @@ pub struct MultiExecMatcher {
     /// The number of paths it has been given so far: a command line without
     /// any (none fitted behind the fixed arguments) is not run.
     paths: RefCell<usize>,
+    /// Never added: it must still fit when an argument is.
+    reserve: OsString,
 }
 
 impl MultiExecMatcher {
@@ -146,8 +155,9 @@ impl MultiExecMatcher {
 
         // The fixed arguments are part of every invocation: when they do not
         // fit on a command line, none can be built.
+        let reserve = OsString::from("x".repeat(FILE_NAME_MAX - ARGMAX_SLACK));
         let mut probe = argmax::Command::new(executable);
-        if probe.try_args(&transformed_args).is_err() {
+        if probe.try_args(&transformed_args).is_err() || !probe.arg_would_fit(&reserve) {
             return Err(From::from(format!(
                 "The arguments of {executable} do not fit within the limit for a command line"
             )));
@@ -159,6 +169,7 @@ impl MultiExecMatcher {
             exec_in_parent_dir,
             command: RefCell::new(None),
             paths: RefCell::new(0),
+            reserve,
         })
     }
 
@@ -168,6 +179,14 @@ impl MultiExecMatcher {
         // behind them is reported by the caller)
         let _ = command.try_args(&self.args);
         command
+    }
+
+    /// Adds `path` when it fits together with the room kept for the kernel.
+    fn try_path(&self, command: &mut argmax::Command, path: &Path) -> std::io::Result<()> {
+        if !command.args_would_fit([path.as_os_str(), self.reserve.as_os_str()]) {
+            return Err(std::io::ErrorKind::ArgumentListTooLong.into());
+        }
+        command.try_arg(path).map(|_| ())
     }
 
     fn run_command(&self, command: &mut argmax::Command, matcher_io: &mut MatcherIO) {
@@ -200,7 +219,7 @@ impl Matcher for MultiExecMatcher {
         let mut paths = self.paths.borrow_mut();
 
         // Build command, or dispatch it before when it is long enough.
-        if command.try_arg(&path_to_file).is_ok() {
+        if self.try_path(command, &path_to_file).is_ok() {
             *paths += 1;
         } else {
             if *paths > 0 {
@@ -214,8 +233,8 @@ impl Matcher for MultiExecMatcher {
             // Reset command status.
             *command = self.new_command();
             *paths = 0;
-            match command.try_arg(&path_to_file) {
-                Ok(_) => *paths = 1,
+            match self.try_path(command, &path_to_file) {
+                Ok(()) => *paths = 1,
                 Err(e) => {
                     let _ = writeln!(
                         &mut stderr(),
